@@ -159,7 +159,7 @@ def plan(tier):
     shards.append({"kind": "twin-roots"})
     shards += [{"kind": "graphs", "part": p, "parts": 16} for p in range(16)]
     shards += [{"kind": "history", "part": p, "parts": 16} for p in range(16)]
-    shards += H.plan_shards(['faults', 'minor-versions'])
+    shards += H.plan_shards(['faults', 'minor-versions', 'wide-revisions'])
     return shards
 
 
